@@ -356,7 +356,7 @@ pub struct RunState<'a, M: MachineIO<MachineStack>> {
     /// Execution Context (actually used for more than Commands)
     ctx: CommandContext,
     // Cursors for `QueryStart` results
-    query_iter_stack: Vec<M::QueryIterator>,
+    query_iter_stack: Vec<(Fact, M::QueryIterator)>,
     #[cfg(feature = "bench")]
     stopwatch: Stopwatch,
 }
@@ -943,12 +943,13 @@ where
             Instruction::QueryStart => {
                 let fact: Fact = self.ipop()?;
                 self.validate_fact_literal(&fact)?;
-                let iter = self.io.fact_query(fact.name, fact.keys)?;
-                self.query_iter_stack.push(iter);
+                let iter = self.io.fact_query(fact.name.clone(), fact.keys.clone())?;
+                // Keep the pattern: `QueryNext` filters by its bound value fields.
+                self.query_iter_stack.push((fact, iter));
             }
             Instruction::QueryNext(ident) => {
                 // Fetch next fact from iterator
-                let iter = self.query_iter_stack.last_mut().ok_or_else(|| {
+                let (fact, iter) = self.query_iter_stack.last_mut().ok_or_else(|| {
                     MachineError::from_position(
                         MachineErrorType::BadState("QueryNext: no results"),
                         self.pc,
@@ -956,7 +957,15 @@ where
                     )
                 })?;
                 // Update `as` variable value and push an end-of-results bool.
-                match iter.next() {
+                // Like `Query` and `FactCount`, skip facts that do not
+                // match the bound value fields of the pattern.
+                let next = loop {
+                    match iter.next() {
+                        Some(Ok(f)) if !fact_match(fact, &f.0, &f.1) => {}
+                        other => break other,
+                    }
+                };
+                match next {
                     Some(result) => {
                         let (k, v) = result?;
                         let mut fields: Vec<KVPair> = vec![];
